@@ -113,3 +113,112 @@ CHECK = store.StoreCheck(
     linear={"quick": 2, "thorough": 3},
 )
 CHECK.export(globals())
+
+
+# ---------------------------------------------------------------------------------------------------
+# Several connections at once (SCHED): a deletion while another connection submits, deletes or asks.
+import json  # noqa: E402
+
+from ..schedmode import SchedMode  # noqa: E402
+
+_base_cases = CHECK.cases
+_base_run_case = CHECK.run_case
+_base_describe = CHECK.describe
+_base_coverage = CHECK.coverage
+_base_replay = CHECK.replay
+S_PRE = ["a1", "a2", "b1"]
+S_SPECS = {
+    # name: (script of (conn, universe member | REQ frame), gone at the end, present at the end)
+    "delete_vs_note": ([("c1", "A_del_a1"), ("c2", "a3")], ["a1"], ["a2", "b1", "a3", "A_del_a1"]),
+    "two_deletions": ([("c1", "A_del_a1a2b1"), ("c2", "B_del_b1a2")], ["a1", "a2", "b1"], ["A_del_a1a2b1", "B_del_b1a2"]),
+    "foreign_vs_own_deletion": ([("c1", "B_del_a1"), ("c2", "A_del_a1")], ["a1"], ["a2", "b1"]),
+    "foreign_deletion_vs_note": ([("c1", "B_del_a1"), ("c2", "a3")], [], ["a1", "a2", "b1", "a3"]),
+    "deletion_vs_query": ([("c1", "A_del_a1a2b1"), ("c2", ["REQ", "q", {"kinds": [1]}])], ["a1", "a2"], ["b1"]),
+}
+
+
+def _s_build(name, backend, policy):
+    from ..explorer import Scenario
+
+    u = CHECK.U()["U8"]
+    script = [(cn, ["EVENT", u[x]] if isinstance(x, str) else x) for cn, x in S_SPECS[name][0]]
+
+    def setup(w):
+        f = w.connect("setup", "9.9.9.9")
+        w.run(1e6)
+        for nm in S_PRE:
+            w.send("setup", ["EVENT", u[nm]], 1e6)
+        f.drop()
+        w.run(1e6)
+        del w.conns["setup"]
+        have = store.decode_store(backend, w.dump())
+        if any(u[nm]["id"] not in have for nm in S_PRE):
+            from ..env import HarnessError
+
+            raise HarnessError("scenario setup did not store %r" % S_PRE)
+
+    return Scenario("%s%s|%s" % (name, "@fair" if policy == "fair" else "", backend), backend, [("c1", "1.1.1.1"), ("c2", "2.2.2.2")], script,
+                    storage_options={"stats_interval": 1e15}, setup=setup, horizon=30.0, policy=policy)
+
+
+def _s_judge(x, name, backend, viol, cid, sig):
+    u = CHECK.U()["U8"]
+    script, gone, present = S_SPECS[name]
+    w = x.world
+    have = store.decode_store(backend, w.dump())
+    acked = True
+    for cn, nm in script:
+        if isinstance(nm, str):
+            ok = any(k == "send" and p.startswith('["OK"') and u[nm]["id"] in p and '",true,' in p for k, _, p in w.conns[cn].transcript)
+            acked = acked and ok
+    if not acked:
+        return  # a refused submission promises nothing here (C06 judges acknowledgements)
+    for nm in gone:
+        if u[nm]["id"] in have:
+            viol.append({"case": cid, "clause": "own-older-removed", "sig": sig + "|" + nm, "detail": "%s is referenced by an accepted deletion of its author but is still stored" % nm})
+    for nm in present:
+        if u[nm]["id"] not in have:
+            viol.append({"case": cid, "clause": "foreign-untouched" if nm in S_PRE else "unreferenced-untouched", "sig": sig + "|" + nm,
+                         "detail": "%s is not (validly) referenced by any accepted deletion of its author but is no longer stored" % nm})
+    # afterwards nothing that should be gone is served
+    if "c2" in w.conns and w.conns["c2"].closed_by_relay is None:
+        c = w.conns["c2"]
+        n0 = len(c.transcript)
+        w.send("c2", ["REQ", "final", {"ids": [u[nm]["id"] for nm in S_PRE]}], 1e6)
+        for k, _, p in c.transcript[n0:]:
+            if k == "send" and p.startswith('["EVENT","final"'):
+                eid = json.loads(p)[2]["id"]
+                nm = next((n for n in S_PRE if u[n]["id"] == eid), eid[:8])
+                if nm in gone:
+                    viol.append({"case": cid, "clause": "deleted-not-served", "sig": sig + "|" + nm, "detail": "%s is still served by a query after its accepted deletion" % nm})
+
+
+SCHEDMODE = SchedMode(S_SPECS, _s_build, _s_judge)
+
+
+def cases(tier):
+    return list(_base_cases(tier)) + SCHEDMODE.cases(tier)
+
+
+def describe(case):
+    return SCHEDMODE.describe(case) if SCHEDMODE.is_case(case) and case[0] == "sched" else _base_describe(case)
+
+
+def run_case(case):
+    return SCHEDMODE.run(case) if SCHEDMODE.is_case(case) and case[0] == "sched" else _base_run_case(case)
+
+
+def coverage(tier, agg):
+    c = _base_coverage(tier, agg)
+    c["rule"] += SCHEDMODE.rule() + " on a store holding a1, a2, b1: at quiescence every own older event referenced by an accepted deletion is gone and not served, everything else is stored"
+    return c
+
+
+def replay(desc):
+    if desc.get("mode") == "sched":
+        r = run_case(SCHEDMODE.from_desc(desc))
+        for v in r["viol"][:20]:
+            print(v["clause"], v["detail"])
+        return r["viol"]
+    return _base_replay(desc)
+
